@@ -15,7 +15,7 @@ from ..simdev.device import (MODE_BOOTLOADER, MODE_SIGNER, MODE_UI_HEARTBEAT, AL
 ID = "C18"
 LEVEL = "exploration"
 RULE = ("full grid: command {onboard, unlock, changepin, pubkeys} x device state (mode "
-        "{bootloader, signer, ui-heartbeat, unknown} x onboarded {y,n} x echo {ok,bad}) x "
+        "{bootloader, signer, ui-heartbeat, unknown} x onboarded {y,n} x echo {ok, payload differs, header differs}) x "
         "platform {Ledger, SGX} x PIN source {option, prompt} x PIN {valid, 7 chars, 9 chars, "
         "digits only, non-alphanumeric, non-ASCII letters/digits of 8 bytes, empty} x any-pin flag x operator answers {yes, Yes, "
         "YES, no, n, other-then-yes, other-then-no, EOF} x no-unlock / no-exec, each on a fresh "
@@ -123,7 +123,8 @@ def cells(spec):
     rng = random.Random(spec["seed"])
     out = []
     plats = ["ledger", "sgx"]
-    for plat, mode, onb, echo in itertools.product(plats, MODES, (True, False), (True, False)):
+    for plat, mode, onb, echo in itertools.product(plats, MODES, (True, False),
+                                                   (True, False, "header-zero")):
         if plat == "sgx" and mode == "uihb":
             continue
         for pk, src, anyp, ans in itertools.product(PINS, ("option", "prompt"), (False, True),
@@ -164,6 +165,7 @@ def run_cell(acc, cell, tmpdir, seed):
     cmd, plat, mode, onb, echo, pk, src, anyp, ans, flag = cell
     rng = random.Random(seed)
     gd, dev = make_device(rng, plat, mode, onb, echo)
+    echo = echo is True      # any other value is some kind of wrong echo
     pin = PINS[pk]
     case = {"cell": list(cell), "seed": seed}
     acc.evaluations += 1
